@@ -2,6 +2,7 @@ RC = "crates/tower-resilience-reconnect/src/"
 RT = "crates/tower-resilience-retry/src/"
 MUT = [("sub", "R16-mut-self", r"\bself\b", "self_", -1), ("inject", None, "start", "let mut self_ = self;")]
 WRAP = ("wrapcalls", "R6-closure-wrap", r"Arc::new", "vx_wrap()", 1)
+WRAPID = ("wrapcalls", "R6-closure-wrap", r"Arc::new", "vx_wrap_of({args})", 1)
 LISTEN = ("wrapcalls", "R6-closure-wrap", r"FnListener::new", "vx_wrap::<Listener>()", 1)
 def setter(file, *extra):
     return dict(file=file, rules=MUT + list(extra))
@@ -21,7 +22,7 @@ UNIT = dict(
         "ReconnectConfigBuilder::max_attempts": setter("rcconfig"),
         "ReconnectConfigBuilder::unlimited_attempts": setter("rcconfig"),
         "ReconnectConfigBuilder::retry_on_reconnect": setter("rcconfig"),
-        "ReconnectConfigBuilder::reconnect_predicate": setter("rcconfig", WRAP),
+        "ReconnectConfigBuilder::reconnect_predicate": setter("rcconfig", WRAPID),
         "ReconnectConfigBuilder::connection_errors_only": setter("rcconfig", WRAP),
         "ReconnectConfigBuilder::build": dict(rules=[("R10f", -1)]),
         "MaxAttemptsSource::default@Default": dict(file="rtconfig"),
@@ -30,11 +31,11 @@ UNIT = dict(
         "RetryConfigBuilder::new": dict(file="rtconfig", rules=[("sub", "R6-name", r"\"[^\"]*\"\.to_string\(\)", "vx_wrap()", 1), ("sub", "R16-phantom", r"_phantom: PhantomData,", "", 1)]),
         "RetryConfigBuilder::default@Default": dict(file="rtconfig"),
         "RetryConfigBuilder::max_attempts": setter("rtconfig"),
-        "RetryConfigBuilder::max_attempts_fn": setter("rtconfig", WRAP),
+        "RetryConfigBuilder::max_attempts_fn": setter("rtconfig", WRAPID),
         "RetryConfigBuilder::fixed_backoff": setter("rtconfig"),
         "RetryConfigBuilder::exponential_backoff": setter("rtconfig"),
-        "RetryConfigBuilder::backoff": setter("rtconfig", WRAP),
-        "RetryConfigBuilder::retry_on": setter("rtconfig", WRAP),
+        "RetryConfigBuilder::backoff": setter("rtconfig", WRAPID),
+        "RetryConfigBuilder::retry_on": setter("rtconfig", WRAPID),
         "RetryConfigBuilder::name": setter("rtconfig", ("sub", "R6-into", r"\bname\.into\(\)", "vx_wrap()", 1)),
         "RetryConfigBuilder::budget": setter("rtconfig"),
         "RetryConfigBuilder::on_budget_exhausted": setter("rtconfig", LISTEN),
